@@ -543,6 +543,8 @@ def jobs(tier):
     for N in (2, 3):
         for n_g in (1, 2, 3, 4):
             J.append(dict(harness=('circuits', 'h_packing_all'), params=dict(N=N, n_ops=n_g, pkg='torchclifford'), cost=3 * n_g))
+    for i0 in (0, 1, 2):      # a target strictly inside the register needs three qubits
+        J.append(dict(harness=('c13', 'h_diagonalize'), params=dict(N=3, i0=i0, causal=False), timeout_s=600, max_paths=6000, cost=40))
     for N in (1, 2):
         for i0 in range(N):
             for causal in (False, True):
